@@ -274,7 +274,8 @@ def write_replay(prop, tag, header, ops=None, domain=None):
     path = os.path.join(REPLAYS, f"{prop}-{tag}.ops" if ops is not None else f"{prop}-{tag}.txt")
     with open(path, "w") as f:
         for h in header:
-            f.write("# " + h + "\n")
+            for hl in str(h).split("\n"):
+                f.write("# " + (hl if len(hl) <= 1500 else hl[:1500] + f" … [{len(hl) - 1500} more characters]") + "\n")
         if ops is not None:
             if domain:
                 f.write(f"# domain {domain}\n")
